@@ -220,8 +220,8 @@ def run(tier):
         prods = [("prod-2x2", 3, 2, 2, [0, 1, 2, 4, 5, 6], [2012, 3012, 3021, 4012, 6012, 3121], [1000, 5003],
                   ["unit", "dst", "zero"], True, 6),
                  ("prod-2x2-nosym", 3, 2, 2, [0, 1, 2, 4], [2012, 3021, 6012], [1000, 5003, 5001], ["dst"], False, 0),
-                 ("prod-3x2", 3, 3, 2, [0, 1, 2, 4], [2012, 6012], [1000, 5003], ["dst", "zero"], True, 0),
-                 ("prod-3x2-3", 3, 3, 2, [0, 1, 2, 4], [2123, 3123, 6123], [1000], ["dst"], True, 0)]
+                 ("prod-3x2", 3, 3, 2, [0, 1, 2, 4], [2012, 6012], [1000, 5003], ["dst"], True, 0),
+                 ("prod-3x2-3", 3, 3, 2, [0, 1, 2, 4], [2123, 3123], [1000], ["dst"], True, 0)]
     for name, np_, w, h, labels, cos, sas, schemes, sym, bound in prods:
         path = os.path.join(WORK, "g02-%s.ndjson" % name)
         n = _export(ck, "ltl/Product", _prod_cfg(name, np_, w, h, labels, cos, sas, schemes, sym, bound, True), name, path)
@@ -243,15 +243,19 @@ def run(tier):
 
     # vacuity gates over the replays
     ck.set("replay_counts", counts)
+    # (measured on what the specification exported, so that a failing replay cannot look vacuous)
     need = ["%s:accepted" % k for k in KINDS] + ["%s:rejected" % k for k in KINDS if k != "Accepting"] + \
-           ["Strict:dead", "Avoidance:dead", "sink_positions", "fresh_automata", "configs_with_ties",
-            "configs_without_solution", "configs_with_solution", "dead_moves", "leads_checked",
-            "leads_from_other_states", "leads_from_dead_ends", "points_on_cell_boundaries", "neighbours", "samples"]
+           ["Strict:dead", "Avoidance:dead", "fresh_automata", "spec_configs_with_ties", "spec_configs_without_solution",
+            "spec_configs_with_solution", "spec_dead_moves", "spec_states_without_lead", "spec_states_with_lead",
+            "points_on_cell_boundaries", "neighbours"]
     missing = [k for k in need if not counts.get(k)]
     if missing:
-        raise FrameworkError("vacuity gate: never seen in the replay: %s" % missing)
-    if not any(counts.get("nolead_" + o) for o in ("crash", "hang", "empty", "exception", "lead")):
-        raise FrameworkError("vacuity gate: computeLead was never asked for a lead that does not exist")
+        raise FrameworkError("vacuity gate: never offered by the exports: %s" % missing)
+    if not ck.violations and not ck.known_hits:
+        # a clean replay must have gone all the way
+        short = [k for k in ("leads_checked", "leads_from_other_states", "dead_moves", "samples") if not counts.get(k)]
+        if short or not any(counts.get("nolead_" + o) for o in ("empty", "exception")):
+            raise FrameworkError("vacuity gate: clean replay but never reached: %s / a lead that does not exist" % short)
 
     # 3. recorded executions validated against the contract
     recs = [400, 400] if quick else [1500] * 4
